@@ -50,7 +50,13 @@ pub fn mul_redc<const N: usize>(a: [u64; N], b: [u64; N], modulus: [u64; N], inv
         let (value, next_carry) = carrying_add(carry_1, carry_2, carry);
         result[N - 1] = value;
         if modulus[N - 1] >= 0x7fff_ffff_ffff_ffff {
+            #[cfg(recmo_uint_verif)]
+            crate::verif_hooks::hit(crate::verif_hooks::Hook::redc_carry_kept);
             carry = next_carry;
+            #[cfg(recmo_uint_verif)]
+            if next_carry {
+                crate::verif_hooks::hit(crate::verif_hooks::Hook::redc_carry_set);
+            }
         } else {
             debug_assert!(!next_carry);
         }
@@ -98,6 +104,8 @@ pub fn square_redc<const N: usize>(a: [u64; N], modulus: [u64; N], inv: u64) -> 
 
         // Add carries
         if modulus[N - 1] >= 0x3fff_ffff_ffff_ffff {
+            #[cfg(recmo_uint_verif)]
+            crate::verif_hooks::hit(crate::verif_hooks::Hook::redc_square_wide);
             let wide = (carry_outer as u128)
                 .wrapping_add(carry_lo as u128)
                 .wrapping_add((carry_hi as u128) << 64)
@@ -107,6 +115,14 @@ pub fn square_redc<const N: usize>(a: [u64; N], modulus: [u64; N], inv: u64) -> 
             // Note carry_outer can be {0, 1, 2}.
             carry_outer = (wide >> 64) as u64;
             debug_assert!(carry_outer <= 2);
+            #[cfg(recmo_uint_verif)]
+            if carry_outer == 2 {
+                crate::verif_hooks::hit(crate::verif_hooks::Hook::redc_square_carry_outer_2);
+            }
+            #[cfg(recmo_uint_verif)]
+            if carry_outer == 1 {
+                crate::verif_hooks::hit(crate::verif_hooks::Hook::redc_square_carry_outer_1);
+            }
         } else {
             // `carry_outer` and `carry_hi` are always zero.
             debug_assert!(!carry_hi);
@@ -127,6 +143,18 @@ pub fn square_redc<const N: usize>(a: [u64; N], modulus: [u64; N], inv: u64) -> 
 #[allow(clippy::needless_bitwise_bool)]
 fn reduce1_carry<const N: usize>(value: [u64; N], modulus: [u64; N], carry: bool) -> [u64; N] {
     let (reduced, borrow) = sub(value, modulus);
+    #[cfg(recmo_uint_verif)]
+    if !carry && borrow {
+        crate::verif_hooks::hit(crate::verif_hooks::Hook::redc_no_sub);
+    }
+    #[cfg(recmo_uint_verif)]
+    if !carry && !borrow {
+        crate::verif_hooks::hit(crate::verif_hooks::Hook::redc_sub_by_no_borrow);
+    }
+    #[cfg(recmo_uint_verif)]
+    if carry {
+        crate::verif_hooks::hit(crate::verif_hooks::Hook::redc_sub_by_carry);
+    }
     // TODO: Ideally this turns into a cmov, which makes the whole mul_redc constant
     // time.
     if carry | !borrow {
